@@ -18,7 +18,7 @@ import vlib
 from vlib import CheckError
 
 PID = "C13"
-REPLAYS = ["f3a", "f3b", "f3c", "f3d", "upkey", "collide", "close2", "closefault"]
+REPLAYS = ["f3a", "f3b", "f3c", "f3d", "upkey", "collide", "close2", "closefault", "tunfail"]
 REPLAY_DOC = {
     "f3a": "BindUpdate (net.Lock -> peers.RLock) vs UAPI remove peer (peers.Lock, Peer.Stop waits for the sender blocked in SendBuffers on net.RLock); Proofs.bindupdate_vs_removepeer_deadlocks",
     "f3b": "UAPI private_key equal to a peer's key (staticIdentity.Lock + peers.Lock, Peer.Stop waits for the sender) vs the sender's rekey (CreateMessageInitiation -> staticIdentity.RLock); Proofs.setprivatekey_collision_vs_sender_rekey_deadlocks",
@@ -27,6 +27,7 @@ REPLAY_DOC = {
     "close2": "scenario that must hold: two overlapping Close() calls while (A) a UAPI set on a stalled pipe holds ipcMutex / (B) Up is parked in bind.Open holding state.mu; nothing panics, device closed, goroutines gone",
     "closefault": "scenario that must hold: bind.Close reports an error although it closed and receive calls notice only after 300 ms; when Down / Close return no RoutineReceiveIncoming goroutine is parked in its loop",
     "f3d": "Down (peers.RLock, Peer.Stop waits for the peer's routine) vs that routine's rekey (CreateMessageInitiation -> staticIdentity.RLock) vs UAPI private_key, any key (staticIdentity.Lock -> peers.Lock); Proofs.down_vs_setprivatekey_vs_sender_rekey_deadlocks",
+    "tunfail": "scenario that must hold: a fatal TUN read error under a running device; device.Wait() fires, every later call returns, bind closed, goroutines gone",
     "upkey": "Up (peers.RLock in upLocked, keepalive -> CreateMessageInitiation -> staticIdentity.RLock) vs direct device.SetPrivateKey (staticIdentity.Lock -> peers.Lock); Proofs.up_keepalive_vs_direct_setprivatekey_deadlocks",
 }
 K_NAMES = ["bind-log(observed Open/Close/Send + call log |= Automaton.holdsb, shape = Automaton.closeopenb)",
@@ -37,7 +38,7 @@ K_NAMES = ["bind-log(observed Open/Close/Send + call log |= Automaton.holdsb, sh
            "deadlock-replays(each ..._deadlocks schedule replayed on the real code, signature reported; plus the must-return scenario 'collide')"]
 RULE = ("one round = a fresh device (sim bind/tun, 3 ref peers) driven by N concurrent callers running random plans of "
         "{Up, Down, BindUpdate, IpcSet(add/remove peer, replace_peers, listen_port, private_key, keepalive, endpoint, fwmark), IpcGet, MTU event, "
-        "TUN bursts, Close mid-plan in 1/3 of the rounds} with network+TUN traffic and handshakes in both directions, then Down/Close (final Close by two goroutines in half of the rounds; in 1/5 of the rounds the sim bind reports an error from Close and its receive calls notice the close 45 ms late) and calls after Close; "
+        "TUN bursts, Close mid-plan in 1/3 of the rounds} with network+TUN traffic and handshakes in both directions, then Down/Close (final Close by two goroutines in half of the rounds; in 1/5 of the rounds the sim bind reports an error from Close and its receive calls notice the close 45 ms late) and calls after Close; in 1/4 of the close-mid rounds and 1/6 of the final phases the device is closed by a fatal TUN read error (sim.Tun.FailRead) instead of Close; "
         "plans come from one PRNG (seed, round); excluded overlaps (the listed findings): direct BindUpdate || peer-set/private-key UAPI sets, "
         "private_key sets in rounds that answer the device's initiations, private_key equal to a peer's key, Down || private_key set; "
         "non-trivial = the round's trace has >= 2 bind opens and >= 1 quiet window after a clean Down (decided inside Coq by Check.nontrivial); "
